@@ -108,9 +108,10 @@ func checkC03(run *Run, res *Result) {
 			fifo[k] = append(fifo[k], emitted{n: e.N, ev: e, sid: e.ID})
 		case journal.KConn:
 			if e.S == "drop" {
-				for kk := range open {
-					if kk.m == e.M {
+				for kk, sid := range open {
+					if kk.m == e.M && connOfSid(run, sid) == e.ID { // only the streams of the dropped connection end
 						delete(open, kk)
+						tail[kk] = fifo[kk]
 						fifo[kk] = nil
 					}
 				}
